@@ -918,6 +918,24 @@ dt_strfdt(char *restrict buf, size_t bsz, const char *fmt, struct dt_dt_s that)
 		}
 	}
 
+	if (!set_fmt) {
+		/* custom format, what a specifier prints must not depend on
+		 * the calendar the value happens to be held in, so go through
+		 * ymd, the one calendar all specifiers are implemented for */
+		switch (that.typ) {
+		case DT_YWD:
+		case DT_YD:
+		case DT_JDN:
+		case DT_LDN:
+		case DT_MDN:
+		case DT_DAISY:
+		case DT_SEXY:
+			that = dt_dtconv((dt_dttyp_t)DT_YMD, that);
+		default:
+			break;
+		}
+	}
+
 	switch (that.typ) {
 	case DT_YMD:
 	case DT_UMMULQURA:
